@@ -366,7 +366,7 @@ def _run_case(case, res):
                 if form:
                     how, obj = make_signal(form)
 
-                shape_i = (len(case["f"]) + (sig_at or 0) + len(method) + (1 if add_self else 0)) % 7
+                shape_i = (len(case["f"]) + (sig_at or 0) + len(method) + (1 if add_self else 0)) % 8
 
                 def cb(node, memo):
                     trace.append(idx_of.get(id(node), "?"))
@@ -395,8 +395,14 @@ def _run_case(case, res):
                     def method(self, a_node, a_memo):
                         return cb(a_node, a_memo)
 
+                class _Collector(list):
+                    """A callable object that is *falsy* when handed in (an empty list-derived collector)."""
+
+                    def __call__(self, nd, mm):
+                        return cb(nd, mm)
+
                 the_cb = [cb, cb_other_names, cb_underscore, cb_varargs, functools.partial(lambda extra, nd, mm: cb(nd, mm), "x"),
-                          _Obj().method, cb][shape_i]
+                          _Obj().method, cb, _Collector()][shape_i]
                 res.count(f"callback_shape:{shape_i}")
                 # the memo object is the caller's: given explicitly (also an empty list / dict) it is the object the callbacks get
                 own_memo = [None, [], {}, [0], None][(shape_i + len(exp)) % 5]
@@ -416,6 +422,19 @@ def _run_case(case, res):
                     fail(f"visit() returned {ret!r}, expected {expval!r} (signal {form}@{sig_at})")
                 if memos and any(m is not memos[0] for m in memos):
                     fail("visit() passed different memo objects")
+                # the signal object is the caller's and may be kept and used again (a module-level `FOUND = StopTraversal(x)`):
+                # the same callback with the same signal object gives the same trace and the same value the second time
+                if form:
+                    trace1, ret1 = list(trace), ret
+                    del trace[:], memos[:]
+                    if start == -1:
+                        ret2 = t.visit(the_cb, method=im, **mkw)
+                    else:
+                        ret2 = sobj.visit(the_cb, add_self=add_self, method=im, **mkw)
+                    res.count("signal_objects_reused")
+                    if trace != trace1 or ret2 != ret1:
+                        fail(f"second visit({method}) with the same callback and the same signal object ({form}@{sig_at}): trace {trace} / returned {ret2!r}, "
+                             f"the first time {trace1} / {ret1!r}")
             # a traversal is read-only: the child lists are untouched and a following pre-order
             # iteration of the same tree object still gives the definition
             if struct() != before_struct:
